@@ -13,6 +13,7 @@ structure DSt where
   okRuns : Nat := 0
   badRuns : Nat := 0
   obs : Option StageObs := none       -- `on_stage_complete` script
+  nests : List Bool := []            -- per stage: does its processor re-enter run() on the same cascade (search-only op)
 
 def mkStage (i : Nat) (cp pr eh : String) (req : Bool) (amp : Rat) : Stage Nat :=
   { checkpoint :=
@@ -24,7 +25,8 @@ def mkStage (i : Nat) (cp pr eh : String) (req : Bool) (amp : Rat) : Stage Nat :
       | "odd" => some fun x => .ok (x % 2 == 1)
       | "lt50" => some fun x => .ok (x < 50)
       | _ => none
-    processor := fun x => if pr = "ok" then .ok (x * 10 + i + 1) else .raise
+    -- "nest": the processor starts a run of its own cascade before returning; that run is a run of its own (see `run`)
+    processor := fun x => if pr = "ok" || pr = "nest" then .ok (x * 10 + i + 1) else .raise
     onError :=
       match eh with
       | "ok" => some fun _ => .ok (7000 + i)
@@ -46,8 +48,8 @@ def showEv : Ev Nat → String
 
 def step (st : DSt) (toks : List String) : DSt × String :=
   match toks with
-  | ["cfg", h, m] => ({ cfg := ⟨boolOf h, ratOf m⟩, stages := [], names := [], made := 0 }, "ok")
-  | ["cfg", h, m, _mode] => ({ cfg := ⟨boolOf h, ratOf m⟩, stages := [], names := [], made := 0 }, "ok")  -- run() ignores the mode
+  | ["cfg", h, m] => ({ cfg := ⟨boolOf h, ratOf m⟩, stages := [], names := [], made := 0, nests := [] }, "ok")
+  | ["cfg", h, m, _mode] => ({ cfg := ⟨boolOf h, ratOf m⟩, stages := [], names := [], made := 0, nests := [] }, "ok")  -- run() ignores the mode
   | ["observer", k] =>
     let o : Option StageObs :=
       if k = "none" then none
@@ -64,31 +66,39 @@ def step (st : DSt) (toks : List String) : DSt × String :=
                            fun x => if x = 0 then .raise else .ok 2, none, true, ratOf a2⟩
     let t3 : Stage Nat := ⟨some fun x => if x = 0 then .raise else .ok (x == 2),
                            fun x => if x = 0 then .raise else .ok 3, none, true, ratOf a3⟩
-    ({ cfg := ⟨boolOf h, ratOf m⟩, stages := [t1, t2, t3], names := ["MAPKKK", "MAPKK", "MAPK"], made := 3 }, "ok")
+    ({ cfg := ⟨boolOf h, ratOf m⟩, stages := [t1, t2, t3], names := ["MAPKKK", "MAPKK", "MAPK"], made := 3,
+       nests := [false, false, false] }, "ok")
   | ["stage", cp, pr, eh, req, amp] =>
     ({ st with stages := st.stages ++ [mkStage st.made cp pr eh (boolOf req) (ratOf amp)],
-               names := st.names ++ [s!"s{st.made}"], made := st.made + 1 }, "ok")
+               names := st.names ++ [s!"s{st.made}"], made := st.made + 1, nests := st.nests ++ [pr == "nest"] }, "ok")
   | ["stage", cp, pr, eh, req, amp, name] =>
     ({ st with stages := st.stages ++ [mkStage st.made cp pr eh (boolOf req) (ratOf amp)],
-               names := st.names ++ [name], made := st.made + 1 }, "ok")
+               names := st.names ++ [name], made := st.made + 1, nests := st.nests ++ [pr == "nest"] }, "ok")
   | ["insert", idx, cp, pr, eh, req, amp, name] =>
     let i := min (natD idx) st.stages.length
     ({ st with stages := st.stages.take i ++ [mkStage st.made cp pr eh (boolOf req) (ratOf amp)] ++ st.stages.drop i,
-               names := st.names.take i ++ [name] ++ st.names.drop i, made := st.made + 1 }, "ok")
+               names := st.names.take i ++ [name] ++ st.names.drop i, made := st.made + 1,
+               nests := st.nests.take i ++ [pr == "nest"] ++ st.nests.drop i }, "ok")
   | ["remove", name] =>
     match st.names.findIdx? (· == name) with
-    | some i => ({ st with stages := st.stages.eraseIdx i, names := st.names.eraseIdx i }, "1")
+    | some i => ({ st with stages := st.stages.eraseIdx i, names := st.names.eraseIdx i, nests := st.nests.eraseIdx i }, "1")
     | none => (st, "0")
   | ["run", x] =>
-    let ro := resultO st.cfg st.obs st.stages (natD x)
-    let r := ro.1
-    let fin := match r.final with | some v => s!"some:{v}" | none => "none"
-    ({ st with runs := st.runs + 1, okRuns := st.okRuns + (if r.success then 1 else 0),
-               badRuns := st.badRuns + (if r.success then 0 else 1) },
-     joinSp [showBool r.success, fin, toString r.completed, toString r.total, showRat r.amplification,
-      (match r.blockedAt with | some i => st.names.getD i "?" | none => "none"),
-      showList (r.results.map fun x => s!"{x.idx}{showStatus x.status}:{showRat x.factor}"),
-      showList (r.log.map showEv), showList (ro.2.map toString)])
+    let render (ro : Result Nat × List Nat) : String :=
+      let r := ro.1
+      let fin := match r.final with | some v => s!"some:{v}" | none => "none"
+      joinSp [showBool r.success, fin, toString r.completed, toString r.total, showRat r.amplification,
+        (match r.blockedAt with | some i => st.names.getD i "?" | none => "none"),
+        showList (r.results.map fun x => s!"{x.idx}{showStatus x.status}:{showRat x.factor}"),
+        showList (r.log.map showEv), showList (ro.2.map toString)]
+    let outer := resultO st.cfg st.obs st.stages (natD x)
+    -- every `nest` processor that ran started one run of the same cascade on signal 3; that run is independent of the
+    -- run it was started from
+    let nestedN := (outer.1.log.filter fun e => match e with | .proc i _ => st.nests.getD i false | _ => false).length
+    let innerR := resultO st.cfg st.obs st.stages 3
+    let oks := (if outer.1.success then 1 else 0) + (if innerR.1.success then nestedN else 0)
+    ({ st with runs := st.runs + 1 + nestedN, okRuns := st.okRuns + oks, badRuns := st.badRuns + (1 + nestedN - oks) },
+     String.intercalate " | " (render outer :: List.replicate nestedN (render innerR)))
   | ["stats"] => (st, s!"{st.stages.length} {st.runs} {st.okRuns} {st.badRuns}")
   | _ => (st, "bad-op")
 
